@@ -22,6 +22,7 @@ from typing import TYPE_CHECKING, Any
 #
 import asimap.trace
 from asimap.generator import get_msg_size, msg_as_bytes, msg_headers_as_bytes
+from asimap.parse import IMAPClientCommand, IMAPCommand
 from asimap.pop3_parse import BadPOP3Command, parse_pop3_command
 from asimap.trace import trace
 
@@ -485,10 +486,19 @@ class POP3CommandHandler:
                 self.snapshot_uids[n - 1] for n in sorted(self.deleted)
             ]
             try:
-                await self.mbox.expunge(
-                    uid_msg_set=uids_to_delete,
-                    check_deleted=False,
-                )
+                # Like any other command that changes the mailbox the expunge
+                # has to take its turn in the mailbox's command queue. Run
+                # outside of it, it races the IMAP clients' commands and the
+                # management task's resync (which then sees a folder that
+                # "shrank" and hands out new UIDs to every message).
+                #
+                expunge_cmd = IMAPClientCommand("POP3 EXPUNGE")
+                expunge_cmd.command = IMAPCommand.EXPUNGE
+                async with expunge_cmd.ready_and_okay(self.mbox):
+                    await self.mbox.expunge(
+                        uid_msg_set=uids_to_delete,
+                        check_deleted=False,
+                    )
             except Exception:
                 logger.exception("Error expunging messages on POP3 QUIT")
                 await self.client.push(
